@@ -50,6 +50,11 @@ inductive Weight where
   | scalar (w : Rat)
   | array (shape : List Nat) (f : List Nat → Rat)
 
+/-- value of a (broadcast) weight at a voxel -/
+def Weight.at : Weight → List Nat → Rat
+  | .scalar w, _ => w
+  | .array _ f, idx => f idx
+
 def prodRat : List Rat → Rat
   | [] => 1
   | x :: xs => x * prodRat xs
@@ -81,6 +86,10 @@ def Weight.mul : Weight → Weight → Except Err Weight
   | .array s f, .scalar b => .ok (.array s fun i => f i * b)
   | .array s f, .array t g => if s = t then .ok (.array s fun i => f i * g i) else .error .value
 
+/-- `ExtrudedGeometry(expansion, …)` and `PorousGeometry(porosity, …)` are `WeightedGeometry` with that weight -/
+def Geo.extruded (expansion : Weight) := Geo.weighted expansion
+def Geo.porous (porosity : Weight) := Geo.weighted porosity
+
 def Geo.extrudedPorous (porosity depth : Weight) (dim : Nat) (numVoxels : List Nat) (dimensions : List Rat) :
     Except Err Geo := do
   let w ← porosity.mul depth
@@ -101,7 +110,7 @@ def weightedSums (v : Vol) (d : Data) : List Rat :=
 
 /-- `Geometry.integrate` -/
 def integrate (refresh : Bool) (g : Geo) (d : Data) : Except Err (Geo × List Rat) :=
-  if d.shape.length ≠ g.numVoxels.length then .error .value else
+  if d.shape.length ≠ g.numVoxels.length then .error .other else
   let sc := ratioProd g.numVoxels d.shape
   match g.vol with
   | .array vshape vf =>
@@ -155,10 +164,11 @@ def specAt (g : Geo) (d : Data) (c : Nat) : Rat :=
 def spec (g : Geo) (d : Data) : List Rat := (List.range d.ncomp).map (specAt g d)
 
 /-- what a call returns, as a function of the constructor arguments and the data only:
-`ValueError` for a wrong number of axes and for array volumes at a foreign resolution outside 2-D,
+`Err.other` = OUTSIDE THE MODELLED DOMAIN when the data have another number of axes than the geometry (the code has no guard
+there: numpy broadcasts and a number comes back; not modelled, not sent), `ValueError` for array volumes at a foreign resolution outside 2-D,
 the specification otherwise -/
 def canonical (g0 : Geo) (d : Data) : Except Err (List Rat) :=
-  if d.shape.length ≠ g0.numVoxels.length then .error .value
+  if d.shape.length ≠ g0.numVoxels.length then .error .other
   else if g0.vol.isArray = true ∧ g0.dim ≠ 2 ∧ d.shape ≠ g0.numVoxels then .error .value
   else .ok (spec g0 d)
 
